@@ -3,6 +3,7 @@ import SpoxModel.Lemmas.OpsetRename
 import SpoxModel.Lemmas.OpsetFuncs
 import SpoxModel.Lemmas.OpsetNames
 import SpoxModel.Lemmas.OpsetMerge
+import SpoxModel.Lemmas.OpsetQualify
 /-!
 # C09 — one opset per domain; mixed-version programs build and keep their meaning
 
@@ -94,6 +95,66 @@ theorem not_imported_of_not_required (g : PGraph) (d : String)
   cases hl : lookup d (buildModel genFacts g).imports with
   | none => rfl
   | some v => exact absurd ((import_is_max g d v).mp hl).1 (h v)
+
+/-! ## the imports as a function of the set of requirements: monotone, order-free (round 10) -/
+
+/-- A program whose nodes (at any depth) all occur in another program requires nothing the other does not. -/
+theorem required_of_nodes_subset (F : Facts) (g g' : PGraph)
+    (h : ∀ n ∈ allNodesG g, n ∈ allNodesG g') (d : String) (v : Nat) :
+    Required F g d v → Required F g' d v := by
+  rintro (h0 | ⟨n, hn, r, hr, h1, h2⟩)
+  · exact Or.inl h0
+  · exact Or.inr ⟨n, h n hn, r, hr, h1, h2⟩
+
+/-- Imports are monotone in what is required: a model that requires everything another one requires imports
+    every domain the other imports, at that version or above. -/
+theorem imports_monotone (g g' : PGraph)
+    (h : ∀ d v, Required genFacts g d v → Required genFacts g' d v) (d : String) (v : Nat)
+    (hl : lookup d (buildModel genFacts g).imports = some v) :
+    ∃ v', lookup d (buildModel genFacts g').imports = some v' ∧ v ≤ v' := by
+  have hr := h d v ((import_is_max g d v).mp hl).1
+  obtain ⟨r, hr', h1, h2⟩ := (required_iff genFacts g' d v).mpr hr
+  have hd : Dominates (buildModel genFacts g').imports (reqGraph genFacts g' ++ []) := policy_dominates _
+  obtain ⟨t, ht, hle⟩ := hd r hr'
+  exact ⟨t, by rw [← h1]; exact ht, by rw [← h2]; exact hle⟩
+
+/-- The imports depend on the SET of (domain, version) requirements only — not on where a node sits (main graph,
+    body, function), not on how often or in which order requirements occur. -/
+theorem imports_depend_on_requirements_only (g g' : PGraph)
+    (h : ∀ d v, Required genFacts g d v ↔ Required genFacts g' d v) (d : String) :
+    lookup d (buildModel genFacts g).imports = lookup d (buildModel genFacts g').imports := by
+  apply Option.ext
+  intro v
+  rw [import_is_max, import_is_max]
+  constructor
+  · rintro ⟨h1, h2⟩
+    exact ⟨(h d v).mp h1, fun v' hv' => h2 v' ((h d v').mpr hv')⟩
+  · rintro ⟨h1, h2⟩
+    exact ⟨(h d v).mpr h1, fun v' hv' => h2 v' ((h d v').mp hv')⟩
+
+/-- Adding statements — before, after — never lowers an import (the same operators built again next to more
+    operators: the histories "same objects under a higher maximum"). -/
+theorem imports_grow_with_program (before ns after : List PNode) (d : String) (v : Nat)
+    (hl : lookup d (buildModel genFacts (.mk ns)).imports = some v) :
+    ∃ v', lookup d (buildModel genFacts (.mk (before ++ ns ++ after))).imports = some v' ∧ v ≤ v' := by
+  apply imports_monotone (.mk ns) _ _ d v hl
+  intro d v
+  apply required_of_nodes_subset
+  intro n hn
+  simp only [allNodesG, allNodesNs_append, List.mem_append] at hn ⊢
+  exact Or.inl (Or.inr hn)
+
+/-- The order of the statements does not enter the imports. -/
+theorem imports_ignore_statement_order (ns ms : List PNode) (d : String) :
+    lookup d (buildModel genFacts (.mk (ns ++ ms))).imports =
+      lookup d (buildModel genFacts (.mk (ms ++ ns))).imports := by
+  apply imports_depend_on_requirements_only
+  intro d v
+  constructor <;>
+  · apply required_of_nodes_subset
+    intro n hn
+    simp only [allNodesG, allNodesNs_append, List.mem_append] at hn ⊢
+    exact hn.symm
 
 /-! ## the floor -/
 
@@ -575,6 +636,159 @@ theorem adapted_names_fresh_pinned_counterexample :
   · decide
   · decide
 
+/-! ## the renaming step of `adapt_node`, at the level of the strings (round 10)
+
+`Opset.Qualify.qualify p ins outs nodes` is the last block of `adapt_node`: `p` = `proto.name`, `ins` / `outs` =
+`proto.input` / `proto.output`, `nodes` = the input / output name lists of the converter's nodes. It is executed by
+the driver against the real `adapt_node` (with generated converter outputs) on every run. -/
+
+section Qualify
+open Opset.Qualify
+
+/-- The converted nodes still read the operands and define the results of the original node: no name of the
+    original NodeProto (and not the empty name of an omitted optional operand) is ever renamed — whatever the
+    converter returned. -/
+theorem qualify_keeps_interface (p : Nm) (ins outs : List Nm) (nodes : List QNode) :
+    (∀ n ∈ ins ++ outs, ren p (introduced (ins ++ outs) nodes) n = n) ∧
+      ren p (introduced (ins ++ outs) nodes) [] = [] :=
+  ⟨fun _ h => ren_of_known h, ren_nil⟩
+
+/-- A conversion that introduces no value is returned verbatim. -/
+theorem qualify_nothing_introduced (p : Nm) (ins outs : List Nm) (nodes : List QNode)
+    (h : introduced (ins ++ outs) nodes = []) : qualify p ins outs nodes = nodes := by
+  unfold qualify
+  rw [h]
+  have hr : ren p [] = id := by funext n; simp [ren]
+  simp [hr]
+
+/-- Every value the returned nodes define is an operand / result of the original node, the empty name, or
+    `f"{node name}__{x}"` for a name `x` the converter introduced — nothing else can appear. -/
+theorem qualify_outputs_classified (p : Nm) (ins outs : List Nm) (nodes : List QNode) :
+    ∀ nd ∈ qualify p ins outs nodes, ∀ o ∈ nd.outs,
+      o = [] ∨ o ∈ ins ++ outs ∨ ∃ x ∈ introduced (ins ++ outs) nodes, o = qual p x := by
+  intro nd hnd o ho
+  simp only [qualify, List.mem_map] at hnd
+  obtain ⟨nd0, hnd0, rfl⟩ := hnd
+  simp only [List.mem_map] at ho
+  obtain ⟨x, hx, rfl⟩ := ho
+  by_cases hi : x ∈ introduced (ins ++ outs) nodes
+  · exact Or.inr (Or.inr ⟨x, hi, ren_of_mem hi⟩)
+  · rw [ren_of_not_mem hi]
+    by_cases he : x = []
+    · exact Or.inl he
+    · by_cases hk : x ∈ ins ++ outs
+      · exact Or.inr (Or.inl hk)
+      · exact absurd (mem_introduced.mpr ⟨⟨nd0, hnd0, hx⟩, he, hk⟩) hi
+
+/-- no name that stays as it is already looks like a qualified introduced name -/
+def NoClash (p : Nm) (ins outs : List Nm) (nodes : List QNode) : Prop :=
+  ∀ a ∈ occurring nodes, a ∉ introduced (ins ++ outs) nodes →
+    ∀ x ∈ introduced (ins ++ outs) nodes, a ≠ qual p x
+
+/-- The renaming keeps the wiring of the converter's nodes: two name occurrences are equal afterwards iff they
+    were equal before (so every converted node reads exactly the values it read in the converter's output, and
+    no two definitions are merged) — provided no name that stays (an operand / result of the original node)
+    already has the form `f"{node name}__{introduced name}"`. -/
+theorem qualify_preserves_wiring (p : Nm) (ins outs : List Nm) (nodes : List QNode)
+    (h : NoClash p ins outs nodes) (a b : Nm) (ha : a ∈ occurring nodes) (hb : b ∈ occurring nodes) :
+    ren p (introduced (ins ++ outs) nodes) a = ren p (introduced (ins ++ outs) nodes) b ↔ a = b :=
+  ⟨ren_inj (h a ha) (h b hb), fun e => e ▸ rfl⟩
+
+/-- …and the proviso is needed: the node `N` reads a value the caller named `N__t`, the converter introduces
+    `t` — after the renaming the new definition carries the operand's name. -/
+theorem qualify_wiring_counterexample :
+    let p := "N".toList; let x := "N__t".toList; let t := "t".toList; let y := "y".toList
+    qualify p [x] [y] [⟨[x], [t]⟩, ⟨[t], [y]⟩] = [⟨[x], [x]⟩, ⟨[x], [y]⟩] := by decide
+
+/-- Node names that do not end in `_` (every name the builder assigns: `enum_names_end_clean`) qualify names
+    without `__` injectively: `f"{p₁}__{a}" = f"{p₂}__{b}"` only for `p₁ = p₂` and `a = b` — also when the node
+    names themselves contain `__` (nodes of a body are called `f"{subgraph}__{op_type}_{i}"`). -/
+theorem qualified_names_disjoint (p₁ p₂ a b : Nm) (h₁ : EndsClean p₁) (h₂ : EndsClean p₂)
+    (ha : NoSep a) (hb : NoSep b) (h : qual p₁ a = qual p₂ b) : p₁ = p₂ ∧ a = b :=
+  qual_prefix_inj h₁ h₂ ha hb h
+
+/-- Every name `ScopeSpace.enum` makes, `f"{base}_{i}"` — whatever the base: an operator identifier, with or without
+    the `f"{subgraph}__"` prefix of a body — does not end in `_` (the digits of `i`: not empty, no `_`). -/
+theorem enum_names_end_clean (base ds : Nm) (hd : ds ≠ []) (hds : '_' ∉ ds) : EndsClean (base ++ '_' :: ds) :=
+  enum_name_endsClean base ds hd hds
+
+/-- `adapted_names_fresh` at the level of the STRINGS, for the converter-introduced names: for any number of
+    converted nodes (main graph, bodies, any depth) with pairwise different builder-assigned names, each conversion
+    introducing distinct names without `__`, all the qualified names of the model are pairwise different strings. -/
+theorem adapted_names_fresh_strings (cs : List (Nm × List Nm))
+    (hp : (cs.map (·.1)).Nodup) (hc : ∀ c ∈ cs, EndsClean c.1) (hs : ∀ c ∈ cs, ∀ a ∈ c.2, NoSep a)
+    (hn : ∀ c ∈ cs, c.2.Nodup) :
+    (cs.flatMap (fun c => c.2.map (qual c.1))).Nodup :=
+  qualified_nodup cs hp hc hs hn
+
+/-- …and both provisos are needed: `A` + `__` + `_x` = `A_` + `__` + `x` (a node name ending in `_`), and
+    `A` + `__` + `B_0__y` = `A__B_0` + `__` + `y` (an introduced name containing `__`). -/
+theorem clean_needed_counterexample :
+    ("A".toList ≠ "A_".toList ∧ qual "A".toList "_x".toList = qual "A_".toList "x".toList) ∧
+    ("A".toList ≠ "A__B_0".toList ∧ qual "A".toList "B_0__y".toList = qual "A__B_0".toList "y".toList) := by
+  decide
+
+/-- the executable tests used for the witnesses (and mirrored by the harness on every observed node name and
+    introduced name) imply the hypotheses -/
+theorem cleanB_clean (p : Nm) : (endsCleanB p = true → EndsClean p) ∧ (noSepB p = true → NoSep p) :=
+  ⟨endsCleanB_sound p, noSepB_sound p⟩
+
+end Qualify
+
+/-! ## `_initializers_to_constants` (round 10) -/
+
+section Inits
+open Opset.Inits
+
+/-- `_initializers_to_constants`, for every graph: the inputs are untouched; the nodes afterwards are Constant nodes for
+    exactly the initializers that are not the default of an input — in the order of the initializers, BEFORE every
+    original node — followed by the original nodes in their order; if there is such an initializer no initializer is
+    left at all (`_Inline.to_onnx` does not refuse the graph), otherwise the graph is returned as it is. -/
+theorem inits_to_constants_spec (g : IGraph) :
+    (toConstants g).inputs = g.inputs ∧
+      (toConstants g).nodes = (movable g).map .const ++ g.nodes ∧
+      (∀ n, n ∈ movable g ↔ n ∈ g.inits ∧ n ∉ g.inputs) ∧
+      ((∃ n ∈ g.inits, n ∉ g.inputs) → (toConstants g).inits = []) ∧
+      ((∀ n ∈ g.inits, n ∈ g.inputs) → toConstants g = g) := by
+  refine ⟨?_, ?_, mem_movable g, ?_, ?_⟩
+  · unfold toConstants; split <;> rfl
+  · unfold toConstants
+    split
+    · next h => simp [List.isEmpty_iff.mp h]
+    · rfl
+  · rintro ⟨n, h1, h2⟩
+    have : n ∈ movable g := (mem_movable g n).mpr ⟨h1, h2⟩
+    unfold toConstants
+    split
+    · next h => rw [List.isEmpty_iff.mp h] at this; cases this
+    · rfl
+  · intro h
+    have : movable g = [] := by
+      apply List.eq_nil_iff_forall_not_mem.mpr
+      intro n hn
+      exact ((mem_movable g n).mp hn).2 (h n ((mem_movable g n).mp hn).1)
+    unfold toConstants
+    simp [this]
+
+/-- applying it twice changes nothing more -/
+theorem inits_to_constants_idempotent (g : IGraph) : toConstants (toConstants g) = toConstants g := by
+  by_cases h : (movable g).isEmpty = true
+  · have : toConstants g = g := by unfold toConstants; simp [h]
+    rw [this, this]
+  · have e : toConstants g = { inputs := g.inputs, inits := [], nodes := (movable g).map .const ++ g.nodes } := by
+      unfold toConstants; simp [h]
+    rw [e]
+    unfold toConstants
+    simp [movable]
+
+/-- quirk kept by the model: the default value of an input is dropped as soon as ONE other initializer exists, and kept
+    (so that `_Inline.to_onnx` would refuse the graph) when it is alone -/
+theorem inits_default_quirk :
+    toConstants ⟨["a".toList], ["a".toList, "w".toList], [.orig 0]⟩ = ⟨["a".toList], [], [.const "w".toList, .orig 0]⟩ ∧
+    toConstants ⟨["a".toList], ["a".toList], [.orig 0]⟩ = ⟨["a".toList], ["a".toList], [.orig 0]⟩ := by decide
+
+end Inits
+
 /-! ## non-vacuity -/
 
 /-- two v17 reductions next to a v18 one, an inlined opset-11 model, an ml operator: imports and decisions -/
@@ -645,5 +859,52 @@ example : (buildModel genFacts inlineMixExample).imports = [("", 21), ("ai.onnx.
   decide +kernel
 example : (buildModel genFacts inlineMixExample).main.map (·.decision) =
     [.convertInline 11 21, .keepSameVersion, .convertInline 17 21, .keepInline, .keepSameVersion] := by decide +kernel
+
+/-- `reduce_mean(x, axes=[1])` (v17) named `ReduceMean_0`, converted to 18: the converter adds a Constant defining
+    `_v_4` and feeds it to the ReduceMean; two such nodes introduce different strings -/
+example : Opset.Qualify.qualify "ReduceMean_0".toList ["x".toList] ["ReduceMean_0_reduced".toList]
+      [⟨[], ["_v_4".toList]⟩, ⟨["x".toList, "_v_4".toList], ["ReduceMean_0_reduced".toList]⟩] =
+    [⟨[], ["ReduceMean_0___v_4".toList]⟩,
+     ⟨["x".toList, "ReduceMean_0___v_4".toList], ["ReduceMean_0_reduced".toList]⟩] := by decide
+example : Opset.Qualify.EndsClean "If_0_then_branch__ReduceMean_0".toList ∧ Opset.Qualify.NoSep "_v_4".toList :=
+  ⟨(cleanB_clean _).1 (by decide), (cleanB_clean _).2 (by decide)⟩
+example : Opset.Qualify.EndsClean ("If_0_then_branch__ReduceMean".toList ++ '_' :: "10".toList) :=
+  enum_names_end_clean _ _ (by decide) (by decide)
+example : (([("ReduceMean_0".toList, ["_v_4".toList]), ("If_0_then_branch__ReduceMean_0".toList, ["_v_4".toList])] :
+      List (Opset.Qualify.Nm × List Opset.Qualify.Nm)).flatMap
+        (fun c => c.2.map (Opset.Qualify.qual c.1))).Nodup :=
+  adapted_names_fresh_strings _ (by decide)
+    (by intro c hc; simp only [List.mem_cons, List.mem_nil_iff, or_false] at hc
+        rcases hc with rfl | rfl <;> exact (cleanB_clean _).1 (by decide))
+    (by intro c hc a ha; simp only [List.mem_cons, List.mem_nil_iff, or_false] at hc
+        rcases hc with rfl | rfl <;>
+          (simp only [List.mem_cons, List.mem_nil_iff, or_false] at ha; subst ha
+           exact (cleanB_clean _).2 (by decide)))
+    (by intro c hc; simp only [List.mem_cons, List.mem_nil_iff, or_false] at hc
+        rcases hc with rfl | rfl <;> decide)
+example : NoClash "N".toList ["x".toList] ["y".toList] [⟨["x".toList], ["t".toList]⟩, ⟨["t".toList], ["y".toList]⟩] := by
+  intro a ha _ x hx
+  have hx' : x = "t".toList := by
+    have : x ∈ ["t".toList] := by
+      have e : Opset.Qualify.introduced (["x".toList] ++ ["y".toList])
+          [⟨["x".toList], ["t".toList]⟩, ⟨["t".toList], ["y".toList]⟩] = ["t".toList] := by decide
+      rw [e] at hx; exact hx
+    simpa using this
+  subst hx'
+  have : a ∈ ["x".toList, "t".toList, "t".toList, "y".toList] := by
+    have e : Opset.Qualify.occurring [⟨["x".toList], ["t".toList]⟩, ⟨["t".toList], ["y".toList]⟩] =
+        ["x".toList, "t".toList, "t".toList, "y".toList] := by decide
+    rw [e] at ha; exact ha
+  simp only [List.mem_cons, List.mem_nil_iff, or_false] at this
+  rcases this with rfl | rfl | rfl | rfl <;> decide
+
+/-- a v18 reduction alone imports 18; next to a v21 Identity (before or after) the import is 21 -/
+example : lookup "" (buildModel genFacts (.mk [.mk (.op "" (opNo "ReduceMax") 18) 1 true [] 3])).imports = some 18 ∧
+    lookup "" (buildModel genFacts (.mk ([.mk (.op "" (opNo "Identity") 21) 1 true [] 5] ++
+      [.mk (.op "" (opNo "ReduceMax") 18) 1 true [] 3] ++ []))).imports = some 21 := by decide +kernel
+
+/-- a converted Pad-10 model: the converter's initializer `pads` becomes a Constant in front of the Pad node -/
+example : Opset.Inits.toConstants ⟨["x".toList], ["pads".toList], [.orig 0]⟩ =
+    ⟨["x".toList], [], [.const "pads".toList, .orig 0]⟩ := by decide
 
 end C09
